@@ -50,7 +50,7 @@ def perturbation_cfg(P, h, kind, cpu, eintr=True):
     P.cfg_active_cpus = [1, 2, 4, 16][h[7] % 4]
     # EINTR injection (dvm executor): client threads are interrupted by a handled, non-SA_RESTART signal every <sigint> us
     si = [0, 0, 0, 0, 150, 600, 2500][(h[7] >> 2) % 7]
-    if si and eintr:
+    if si and eintr and not os.environ.get("VERIF_NO_EINTR"):
         cfg["sigint"] = si
         P.features.add("eintr-injection")
     P.features.add("mode=%s" % (kind if kind in ("F1", "P1") else ("N" if cfg["mode"] == 0 else "MC")))
